@@ -310,3 +310,91 @@ func stubAfterFunc(t *Thread, fn *ssa.Function, args []Value, pos token.Pos) Val
 	e.timerObjs[cell] = tm
 	return cell
 }
+
+// purePackages: standard-library helper packages whose (generic) Go bodies are interpreted as they are.
+var purePackages = map[string]bool{"maps": true, "slices": true, "cmp": true}
+
+// prefixStub matches stubs for generic receiver types (atomic.Pointer[T]).
+func prefixStub(name string) stubFn {
+	const p = "(*sync/atomic.Pointer["
+	if len(name) > len(p) && name[:len(p)] == p {
+		i := lastIndex(name, ").")
+		if i < 0 {
+			return nil
+		}
+		m := name[i+2:]
+		if j := indexByte(m, '['); j >= 0 {
+			m = m[:j]
+		}
+		switch m {
+		case "Load":
+			return func(t *Thread, fn *ssa.Function, args []Value, pos token.Pos) Value {
+				c := atomicValueCell(t, args[0], pos)
+				st := t.e.syncOf(c)
+				t.visible(&SyncOp{kind: "atomic.load", obj: c, read: true, tpos: pos, enabled: func() bool { return true }})
+				t.acquire(&st.hb)
+				if c.v == nil {
+					return (*Cell)(nil)
+				}
+				return c.v
+			}
+		case "Store":
+			return func(t *Thread, fn *ssa.Function, args []Value, pos token.Pos) Value {
+				c := atomicValueCell(t, args[0], pos)
+				st := t.e.syncOf(c)
+				t.visible(&SyncOp{kind: "atomic.store", obj: c, tpos: pos, enabled: func() bool { return true }})
+				c.v = args[1]
+				t.release(&st.hb)
+				return nil
+			}
+		case "Swap":
+			return func(t *Thread, fn *ssa.Function, args []Value, pos token.Pos) Value {
+				c := atomicValueCell(t, args[0], pos)
+				st := t.e.syncOf(c)
+				t.visible(&SyncOp{kind: "atomic.swap", obj: c, tpos: pos, enabled: func() bool { return true }})
+				t.acquire(&st.hb)
+				old := c.v
+				if old == nil {
+					old = (*Cell)(nil)
+				}
+				c.v = args[1]
+				t.release(&st.hb)
+				return old
+			}
+		case "CompareAndSwap":
+			return func(t *Thread, fn *ssa.Function, args []Value, pos token.Pos) Value {
+				c := atomicValueCell(t, args[0], pos)
+				st := t.e.syncOf(c)
+				t.visible(&SyncOp{kind: "atomic.cas", obj: c, tpos: pos, enabled: func() bool { return true }})
+				t.acquire(&st.hb)
+				cur, _ := c.v.(*Cell)
+				old, _ := args[1].(*Cell)
+				ok := cur == old
+				if ok {
+					c.v = args[2]
+				}
+				t.release(&st.hb)
+				return t.e.ts.Bool(ok)
+			}
+		}
+	}
+	return nil
+}
+
+func lastIndex(s, sub string) int {
+	for i := len(s) - len(sub); i >= 0; i-- {
+		if s[i:i+len(sub)] == sub {
+			return i
+		}
+	}
+	return -1
+}
+
+func indexByte(s string, b byte) int {
+	for i := 0; i < len(s); i++ {
+		if s[i] == b {
+			return i
+		}
+	}
+	return -1
+}
